@@ -539,6 +539,22 @@ impl SModel {
                         }
                         Which::C17 => {
                             // under (or after) a fault: Err, or exactly the fault-free answer
+                            if (state.faulted || fault_script) && res.ok && scoped_out {
+                                // outside the slice comparison's scope (compressed sections, empty
+                                // section header table): the truth is the stream's own answer to the
+                                // same query on a fresh fault-free stream
+                                let (fr, _) = open_stream_at(&self.img.bytes, &[], 0);
+                                if let Ok(Ok(mut fs)) = fr {
+                                    let (fres, fp) = run_op_stream(&mut fs, &self.img, *op);
+                                    if fp.is_none() && (!fres.ok || fres.digest != res.digest) {
+                                        bad = Some(format!(
+                                            "{:?} returned Ok with {} after an injected I/O fault (truth: the same query on a fresh fault-free stream)",
+                                            op,
+                                            if fres.ok { "content that differs from the fault-free answer" } else { "data although the fault-free answer is an error" }
+                                        ));
+                                    }
+                                }
+                            }
                             if (state.faulted || fault_script) && res.ok && !scoped_out {
                                 if !truth.ok || truth.digest != res.digest {
                                     bad = Some(format!(
